@@ -20,6 +20,8 @@ CONSTANTS
   MaxCtl = 0
   CtlSources <- MCNoSrc
   MaxRebootAsks = 0
+  MaxCrashes = 0
+  RestartRuns <- MCRestartNone
   Mut = "none"
 INVARIANT NoViolation
 INVARIANT PrintDone
